@@ -19,7 +19,7 @@ ID = "C08"
 LEVEL = "exploration"
 TECHNIQUE = "fresh-rebuild differential over edit histories; conservation + unique-value-per-key oracle under a controlled line-level scheduler"
 RULE = ("A: alphabet of 20 operations (incl. a member of an arrayed constant re-assigned after an aggregate over it was defined, the constant behind the stock's initial value, a named lookup's points replaced / moved in place followed by reset_cache) (three evaluation routes: evaluate_equation, Element.plot, memoize/element call) (3 converter equations, 2 flow equations, 2 stock equations, initial value number/number/constant, "
-        "2 constant values, reset_cache, partial evaluation) - ALL sequences of length<=3 (quick) / <=4 (thorough) + random length 5-30, "
+        "2 constant values, reset_cache, partial evaluation) - ALL sequences of length<=3 (both tiers), a seeded sample of 64000 of the 160000 sequences of length 4 (thorough) + random length 5-30, "
         "each in three observation modes (compare after every op through evaluate_equation / through the memo route, or only at the end), plus scenario double-runs with different equation lists, and a stochastic model run five times with changing equation lists (SdSimulation.start and bptk.run_scenarios): repeated series identical, identities hold over the union of the reported frames. "
         "B: 4 requested-equation lists x all schedules with <=1 preemption (quick) / <=2 (thorough) at LINE granularity inside Model.memoize, "
         "plus unscheduled stress runs. C: one thread evaluates (3 evaluation routes) while another edits (constant / converter / flow / stock equation, initial value, reset_cache, edit followed by reset): all schedules with <=1 (quick) / <=2 (thorough) preemptions at the lines of Model.memoize; once both are done the model must equal a fresh build with the final definitions. distinct_nontrivial = distinct edit histories in which an edited element has a cached dependant, "
@@ -39,10 +39,15 @@ EQ_LISTS = [["s", "f", "rnd"], ["rnd", "f", "s"], ["f", "copy", "rnd"], ["s", "c
 
 def gen_cases(tier, seed):
     cases = []
-    L = 3 if tier == "quick" else 4
     for first in range(len(OPS)):
-        cases.append(dict(kind="enum", first=first, L=L))
+        cases.append(dict(kind="enum", first=first, L=3))
     rng = random.Random(4242 + seed)
+    if tier == "thorough":
+        # length 4: a seeded sample of 3200 of the 8000 continuations of every first operation (all 160000 do not fit the budget)
+        for first in range(len(OPS)):
+            tails = rng.sample(range(len(OPS) ** 3), 3200)
+            for c0 in range(0, 3200, 400):
+                cases.append(dict(kind="enum4", first=first, tails=tails[c0:c0 + 400]))
     for i in range(150 if tier == "quick" else 5000):
         cases.append(dict(kind="random", seq=[rng.randrange(len(OPS)) for _ in range(rng.randint(5, 30))]))
     for i in range(24 if tier == "quick" else 200):
@@ -497,13 +502,15 @@ def run_case(case):
         if st == "stuck":
             return dict(verdict="inconclusive", counters=counters, witness=w)
         return dict(verdict="held", nt=nts, counters=counters, sample=dict(case=case))
-    if k in ("enum", "random"):
+    if k in ("enum", "random", "enum4"):
+        n = len(OPS)
         seqs = [case["seq"]] if k == "random" else \
+            [[case["first"], x // (n * n), (x // n) % n, x % n] for x in case["tails"]] if k == "enum4" else \
             [[case["first"]] + list(t) for L in range(case["L"]) for t in itertools.product(range(len(OPS)), repeat=L)]
         nts = []
         for si, seq in enumerate(seqs):
-            # three observation modes; in the quick tier the longest sequences alternate between the two per-operation modes
-            modes = (True, False, 2) if (k == "random" or case["L"] > 3 or len(seq) < case["L"]) else ((True, False) if si % 2 else (2, False))
+            # three observation modes; the longest enumerated sequences alternate between the two per-operation modes
+            modes = (True, False, 2) if (k == "random" or len(seq) < 3) else ((True, False) if si % 2 else (2, False))
             for every in modes:
                 counters["histories"] = counters.get("histories", 0) + 1
                 w, interesting = run_history(seq, every, counters)
